@@ -160,6 +160,16 @@ def run_case(case):
         out['n_feedback_after'] = [len(R.feedback), len(R.ignored_feedback)]
     except Exception as e:
         out['simple_again'] = {'raise': type(e).__name__, 'msg': str(e)[:200]}
+    # the same feedback recorded in the opposite order: the property's answer is determined the same way
+    try:
+        R.feedback.reverse()
+        try:
+            final5 = simple.resolve(R) if rep is not None else simple.resolve()
+            out['simple_reversed'] = describe(final5)
+        finally:
+            R.feedback.reverse()
+    except Exception as e:
+        out['simple_reversed'] = {'raise': type(e).__name__, 'msg': str(e)[:200]}
     # a suppression added after the report was resolved, then one more resolve
     if case.get('late_suppress') is not None:
         s = case['late_suppress']
